@@ -37,6 +37,18 @@ TraceNew ==
              <<"C01.raised", e.exc = "">>,
              <<"C01.new_state", e.exc # "" \/ ObjOfRec(e.post) = o>>}))
 
+(* An object that the library itself produced (e.g. a bootstrap sample) is   *)
+(* adopted as it reports itself: the multiset of its own pos/neg scores.  Its *)
+(* matrices must still equal counting by the decision rule over those scores  *)
+(* - which fails if the object is internally unsorted.                        *)
+TraceAdopt ==
+  /\ IsEvent("Adopt")
+  /\ LET e == Log[l]
+         r == e.post
+         o == Obj(SortAsc(r.pos), SortAsc(r.neg), r.ep, r.en, r.sc, r.ec)
+     IN /\ store' = (e.h :> o) @@ store
+        /\ Report(e, Failing({<<"C01.raised", e.exc = "">>}))
+
 TraceSwap ==
   /\ IsEvent("Swap")
   /\ LET e == Log[l]
@@ -115,7 +127,7 @@ TracePointwise ==
                     IN <<sumCell(i, 1), sumCell(i, 2), sumCell(i, 3), sumCell(i, 4)>>
                        = <<tp, Cardinality(P) - tp, fp, Cardinality(N) - fp>>>>}))
 
-Next == TraceNew \/ TraceSwap \/ TraceCM \/ TraceRates \/ TracePointwise
+Next == TraceNew \/ TraceAdopt \/ TraceSwap \/ TraceCM \/ TraceRates \/ TracePointwise
 Spec == Init /\ [][Next]_vars
 
 AllConsumed == TLCGet("stats").diameter - 1 = Len(Log)
